@@ -270,7 +270,7 @@ def query_regions(q, forms=None) -> set:
     if forms:
         used = set(q.get("sel", [])) | _vars_in(q.get("conds", [])) | _vars_in(q.get("head", [])) | \
             _vars_in(q.get("rule", {}))
-        if sum(1 for v in used if forms.get(v) == "kw") >= 2:
+        if sum(1 for v in used if forms.get(v) in ("kw", "nodom")) >= 2:
             out.add("several_kwargs_form_variables")
     return out
 
@@ -322,7 +322,13 @@ def _root_var(t):
 
 def pool_regions(pool) -> set:
     out = set()
-    forms = {v["n"]: v.get("form", "let") for v in pool["vars"]}
+    # a variable without a domain is registry-backed: like a kwargs-form variable it is a generator-fed nested
+    # source, and the region below counts both kinds
+    forms = {v["n"]: ("nodom" if v.get("dom") is None and v.get("t") != "View" else v.get("form", "let"))
+             for v in pool["vars"]}
+    for v in pool["vars"]:
+        if v.get("form") == "kw":
+            forms[v["n"]] = "kw"
     for q in pool["queries"]:
         out |= query_regions(q, forms)
     return out
